@@ -99,6 +99,10 @@ pub struct World {
     honest: BTreeMap<(String, String, u32), Op>,
     /// operation hash -> info of the operation with that hash
     pub by_hash: BTreeMap<Hash, Info>,
+    /// `Some(m)`: boundary relabelling - the spec's highest sequence number `m` stands for
+    /// `u32::MAX` in chains whose top operation carries the prune flag (order and all verdicts of
+    /// the spec are preserved: a prune-flagged operation needs no predecessor).
+    pub top_max: Option<u32>,
 }
 
 impl World {
@@ -110,6 +114,23 @@ impl World {
             names: BTreeMap::new(),
             honest: BTreeMap::new(),
             by_hash: BTreeMap::new(),
+            top_max: None,
+        }
+    }
+
+    /// spec sequence number -> concrete sequence number of the honest chain (a, l)
+    pub fn cseq(&self, a: &str, l: &str, s: u32) -> u32 {
+        match self.top_max {
+            Some(m) if s == m && self.prune.contains(&(a.to_string(), l.to_string(), m)) => u32::MAX,
+            _ => s,
+        }
+    }
+
+    /// concrete sequence number -> spec sequence number
+    pub fn aseq(&self, c: u32) -> u32 {
+        match self.top_max {
+            Some(m) if c == u32::MAX => m,
+            _ => c,
         }
     }
 
@@ -161,7 +182,7 @@ impl World {
             signature: None,
             payload_size: payload.as_ref().map(|b| b.size()).unwrap_or(0),
             payload_hash: payload.as_ref().map(|b| b.hash()),
-            seq_num: s,
+            seq_num: self.cseq(a, l, s),
             backlink,
             extensions: Ext { log: l.to_string(), prune },
         };
@@ -230,7 +251,7 @@ impl World {
             // header field changed, signature left as it was
             "ClaimOtherAuthor" => h.verifying_key = self.vk(param),
             "PruneFlipped" => h.extensions.prune = !h.extensions.prune,
-            "SeqChanged" => h.seq_num = param.parse().expect("seq param"),
+            "SeqChanged" => h.seq_num = self.cseq(&author, &h.extensions.log.clone(), param.parse().expect("seq param")),
             "BacklinkChanged" => h.backlink = Some(Hash::digest(b"elsewhere")),
             "ForgedPrune" => {
                 h.verifying_key = self.vk(param);
@@ -364,7 +385,7 @@ impl Impl {
                         key,
                         a: name.clone(),
                         l: l.clone(),
-                        seq: op.header.seq_num,
+                        seq: world.aseq(op.header.seq_num),
                         prune: op.header.extensions.prune,
                         hash: op.hash,
                         backlink: op.header.backlink,
@@ -446,8 +467,8 @@ impl Judge {
         if res == Res::Inserted {
             let log: Vec<&Row> = before.iter().filter(|r| r.a == info.a && r.l == info.l).collect();
             let h = log.iter().map(|r| r.seq as i64).max().unwrap_or(-1);
-            let s = op.header.seq_num as i64;
-            let flagged = op.header.extensions.prune;
+            let s = info.seq as i64;
+            let flagged = info.prune;
             let non_extending = if log.is_empty() {
                 s > 0 && !flagged
             } else if !flagged {
@@ -458,15 +479,15 @@ impl Judge {
             if non_extending {
                 f.push(("C03", "non-extending-operation-accepted".into(), format!("{} (seq {s}, prune flag {flagged}) was inserted into a log of height {h}", info.key)));
             }
-            if after.iter().filter(|r| r.a == info.a && r.l == info.l && r.seq == op.header.seq_num).count() > 1 {
+            if after.iter().filter(|r| r.a == info.a && r.l == info.l && r.seq == info.seq).count() > 1 {
                 f.push(("C03", "duplicate-seq".into(), format!("{}/{} holds two entries with seq {}", info.a, info.l, s)));
             }
             // C05
-            if let Some(p) = self.ingested_prunes.iter().find(|p| p.0 == info.a && p.1 == info.l && op.header.seq_num < p.2) {
+            if let Some(p) = self.ingested_prunes.iter().find(|p| p.0 == info.a && p.1 == info.l && info.seq < p.2) {
                 f.push(("C05", "stored-below-prune-point".into(), format!("{} (seq {}) was stored although a prune-flagged operation at seq {} of the same log had been ingested before", info.key, s, p.2)));
             }
             if flagged {
-                self.ingested_prunes.insert((info.a.clone(), info.l.clone(), op.header.seq_num));
+                self.ingested_prunes.insert((info.a.clone(), info.l.clone(), info.seq));
             }
         }
         f.extend(self.chain_check(after));
@@ -542,6 +563,7 @@ fn expected_store(step: &Value) -> BTreeSet<String> {
 }
 
 struct Expand {
+    top_max: Option<u32>,
     every: usize,
     flips: usize,
     all_bits: bool,
@@ -561,6 +583,7 @@ fn replay(args: &Args) {
     );
     let rt = tokio::runtime::Builder::new_current_thread().enable_all().build().expect("runtime");
     let mut expand = Expand {
+        top_max: args.extra.get("top_max").and_then(|v| v.parse().ok()),
         every: args.extra_usize("expand_every", 0),
         flips: args.extra_usize("flips", 200),
         all_bits: args.extra.get("all_bits").map(|v| v == "1").unwrap_or(false),
@@ -602,6 +625,7 @@ fn report(out: &mut Outcome, findings: Vec<Finding>, b: &Value, step: usize) {
 
 async fn replay_one(imp: &Impl, b: &Value, bi: usize, out: &mut Outcome, expand: &mut Expand) -> Result<(), String> {
     let mut world = World::new(format!("b{bi}"));
+    world.top_max = expand.top_max;
     for p in b["world"].as_array().cloned().unwrap_or_default() {
         world.prune.insert((
             p[0].as_str().expect("a").to_string(),
@@ -650,7 +674,7 @@ async fn replay_one(imp: &Impl, b: &Value, bi: usize, out: &mut Outcome, expand:
                 };
                 // the concrete operation must carry exactly the header fields the spec item has
                 let a_name = world.name_of(&op.header.verifying_key);
-                if a_name != info.a || op.header.seq_num != info.seq || op.header.extensions.prune != info.prune {
+                if a_name != info.a || world.aseq(op.header.seq_num) != info.seq || op.header.extensions.prune != info.prune {
                     eprintln!("harness bug: concretisation of {cls} does not match the item: {item}");
                     std::process::exit(2);
                 }
@@ -699,7 +723,12 @@ async fn replay_one(imp: &Impl, b: &Value, bi: usize, out: &mut Outcome, expand:
                 let (p, res) = prune_q.pop_front().expect("spec prunes only what was ingested");
                 let active = st["active"].as_bool().expect("active");
                 let args = if active {
-                    Some((world.vk(st["a"].as_str().unwrap()), st["l"].as_str().unwrap().to_string(), st["until"].as_u64().unwrap() as u32))
+                    // exactly what Event::new reads: the header's verifying key and seq_num
+                    if world.name_of(&p.op.header.verifying_key) != st["a"].as_str().unwrap() || world.aseq(p.op.header.seq_num) as u64 != st["until"].as_u64().unwrap() {
+                        eprintln!("harness bug: prune args of the spec do not match the event's header: {st}");
+                        std::process::exit(2);
+                    }
+                    Some((p.op.header.verifying_key, st["l"].as_str().unwrap().to_string(), p.op.header.seq_num))
                 } else {
                     None
                 };
